@@ -529,13 +529,19 @@ def c17_mounts_search(meta, seed, budget):
     yield hx([(b"/dev/x", b"/m", b"\xff\xfe", b"rw")], repeat=40)                           # non-UTF-8 fs type
     yield hx([(b"/dev/\xff", b"/m\xfe", b"ext4", b"rw")])                                  # surrogateescape fields
     yield hx([(b"d" * 3000, b"/" + b"m" * 3000, b"t" * 100, b"o" * 2000)])                  # 8 kB line
+    # long lines that glibc's getmntent() still returns whole (< 4095 bytes): overlay mounts with many lower layers
+    yield hx([(b"overlay", b"/var/lib/docker/overlay2/x/merged", b"overlay",
+               b"rw,lowerdir=" + b":".join(b"/var/lib/docker/overlay2/l/%032d" % i for i in range(40)))])
+    yield hx([(b"/dev/sda1", b"/", b"ext4", b"rw"), (b"/dev/" + b"x" * 1500, b"/mnt/" + b"y" * 1500, b"ext4", b"rw," + b"o" * 900),
+              (b"/dev/sdb1", b"/data", b"xfs", b"rw,noatime")])
     yield hx([(b"/dev/sd%d" % i, b"/mnt/%d" % i, b"ext4", b"rw") for i in range(256)])
     n = 0
     while n < budget:
         n += 1
         def rb(k):
             return bytes(rnd.choice(b"abc/ \t\\09,=\xff\xc3\xa9") for _ in range(rnd.randint(1, k))) or b"x"
-        yield hx([(rb(30), b"/" + rb(30), rnd.choice([b"ext4", b"tmpfs", rb(8)]), rnd.choice([b"rw", rb(40)]))
+        big = rnd.choice([40, 40, 40, 700, 1800])        # now and then an entry of a few kB
+        yield hx([(rb(30), b"/" + rb(30), rnd.choice([b"ext4", b"tmpfs", rb(8)]), rnd.choice([b"rw", rb(big)]))
                   for _ in range(rnd.randint(1, 6))], repeat=5)
 
 
